@@ -47,10 +47,24 @@ def run(ctx):
     unlink_rule(ctx, d5)
 
 
-def _cache_drop_pred(recv):
+def _cache_captured(fn_node, recv):
+    """the cache object of `recv` is taken as a value somewhere in the function (saved in a local / tuple, returned, passed on): emptying
+    it in place would also empty the saved one, and the saved one would stay the live one -- only a re-bind separates them"""
+    for x in walk_no_nested(fn_node):
+        if isinstance(x, ast.Attribute) and isinstance(x.ctx, ast.Load) and x.attr == '_data_cache' and src(x.value) == recv:
+            par = getattr(x, '_parent', None)
+            if isinstance(par, ast.Subscript) and par.value is x:
+                continue          # an entry of the cache is read / written
+            if isinstance(par, ast.Attribute) and par.value is x:
+                continue          # a method of the cache (clear, get, pop, ...)
+            return True
+    return False
+
+
+def _cache_drop_pred(recv, clear_counts=True):
     """a node that drops / replaces recv._data_cache"""
     def pred(x):
-        if isinstance(x, ast.Call) and isinstance(x.func, ast.Attribute) and x.func.attr == 'clear' \
+        if clear_counts and isinstance(x, ast.Call) and isinstance(x.func, ast.Attribute) and x.func.attr == 'clear' \
                 and src(x.func.value) == recv + '._data_cache':
             return True
         if isinstance(x, ast.Attribute) and isinstance(x.ctx, ast.Store) and x.attr == '_data_cache' and src(x.value) == recv:
@@ -127,9 +141,9 @@ def view_coherence(ctx, d1):
                     cfg = CFG(f.node)
                     dom = cfg.dominators()
                 node = cfg.node_of(st)
-                where, wit = storage.holds_around(cfg, dom, node, _cache_drop_pred(recv_for_cache))
+                where, wit = storage.holds_around(cfg, dom, node, _cache_drop_pred(recv_for_cache, not _cache_captured(f.node, recv_for_cache)))
                 if where is None and recv_for_cache != recv:
-                    where, wit = storage.holds_around(cfg, dom, node, _cache_drop_pred(recv))
+                    where, wit = storage.holds_around(cfg, dom, node, _cache_drop_pred(recv, not _cache_captured(f.node, recv)))
                 if where is None:
                     # a call on the same receiver that (transitively) drops the cache, e.g. self._set_cache() does not; reset_chemicals does
                     pass
@@ -137,8 +151,10 @@ def view_coherence(ctx, d1):
                     d1.ok(cons, '%s.%s re-bound; %s._data_cache dropped/replaced (%s)' % (recv, n.attr, recv_for_cache, where), f, st)
                 else:
                     d1.fail(cons, 'views-kept-%s' % n.attr,
-                            '%s.%s is re-bound but the cached mass/volume views of %s (which wrap the old dicts) are kept'
-                            % (recv, n.attr, recv_for_cache), f, st)
+                            '%s.%s is re-bound but the cached mass/volume views of %s (which wrap the old dicts) are kept%s'
+                            % (recv, n.attr, recv_for_cache,
+                               ' (the cache object is saved / handed out in this function, so emptying it in place empties the saved one too and leaves it live: '
+                               'only a re-bind separates them)' if _cache_captured(f.node, recv_for_cache) else ''), f, st)
 
 
 def _is_molar(prog, c):
